@@ -315,9 +315,15 @@ def compute_argument_factorization(S, rank):
                 # Functionals and expressions: store as no args * factor
                 for comp in S.nodes[S_target]["component"]:
                     factors[comp] = {(): F.e2i[S.nodes[S_target]["expression"]]}
-            else:
+            elif isinstance(S.nodes[S_target]["expression"], Zero):
                 # Zero form of arity 1 or higher: make factors empty
                 pass
+            else:
+                # A component that does not depend on the arguments but is
+                # not zero (as_vector([u, f])) would silently be dropped.
+                # UFL's arity check rejects such forms, expressions are
+                # not checked by UFL.
+                raise RuntimeError("Expecting equal argument rank terms among components.")
         else:
             # Forms of arity 1 or higher:
             # Map argkeys from indices into SV to indices into AV,
